@@ -108,11 +108,11 @@ class Engine:
 		wire = [codec.dumps(case['value']) for case in cases]
 		lines = []
 		for text in wire:
-			lines += [f'enc {self.sid} {type_name} {text}', f'size {self.sid} {type_name} {text}', f'json {self.sid} {type_name} {text}', f'adm {self.sid} {type_name} {text}']
+			lines += [f'enc {self.sid} {type_name} {text}', f'size {self.sid} {type_name} {text}', f'json {self.sid} {type_name} {text}', f'adm {self.sid} {type_name} {text}', f'str {self.sid} {type_name} {text}']
 			if is_struct:
 				lines.append(f'layout {self.sid} {type_name} {text}')
 		answers = self.ask_many(lines)
-		stride = 5 if is_struct else 4
+		stride = 6 if is_struct else 5
 
 		mutant_lines = []
 		mutant_meta = []
@@ -158,9 +158,18 @@ class Engine:
 				elif 'ok true' != admissible:
 					ctx.fail('corr', f'{net.name}.{type_name}: a value the implementation round-trips is not admissible in the model ({admissible})', ident)
 
+				# text rendering: str(value) shows exactly the member values
+				impl_str = str(case['obj'])
+				model_str = answers[stride * index + 4]
+				expected_str = 'ok ' + (impl_str.encode('utf8').hex().upper() or '-')
+				if model_str != expected_str:
+					decoded_model = bytes.fromhex(model_str[3:]).decode('utf8', 'replace') if model_str.startswith('ok ') and '-' != model_str[3:] else model_str
+					ctx.fail('corr', f'{net.name}.{type_name}: model str() differs from the implementation', dict(ident, model=decoded_model[:600], implementation=impl_str[:600]))
+				ctx.count('str-compared')
+
 			spans = None
-			if is_struct and answers[stride * index + 4] and answers[stride * index + 4].startswith('ok '):
-				spans = [part.split(':') for part in answers[stride * index + 4][3:].split(',') if ':' in part]
+			if is_struct and answers[stride * index + 5] and answers[stride * index + 5].startswith('ok '):
+				spans = [part.split(':') for part in answers[stride * index + 5][3:].split(',') if ':' in part]
 			for mutant, label in self.mutants(data, spans, mutants_per_value):
 				mutant_lines.append(f'dec {self.sid} {type_name} {mutant.hex().upper() if mutant else "-"}')
 				mutant_meta.append((mutant, label, ident))
